@@ -536,6 +536,22 @@ Walk:
 			}
 		}
 
+		if !tsr && charsMatched == len(path) && charsMatchedInNodeFound == len(current.key) && !strings.HasSuffix(path, "/") {
+			// Tsr recommendation: add an extra trailing slash (got an exact match with an intermediary node).
+			// /a [intermediary]
+			//	  /  [leaf=/a/]
+			//	  a/ [leaf=/aa/]
+			if idx := linearSearch(current.childKeys, slashDelim); idx >= 0 {
+				if child := current.children[idx]; child.isLeaf() && child.key == "/" {
+					tsr = true
+					n = child
+					if !lazy {
+						copyWithResize(c.tsrParams, c.params)
+					}
+				}
+			}
+		}
+
 		goto Backtrack
 	}
 
